@@ -101,6 +101,13 @@ def history(rng, t, n, ao, ab, nops, probes=True, fresh=None):
                 return p
         return p
 
+    def origin():
+        """top-left of a fill area: inside +-2^29, where Rectangle::points() does not saturate (C16's range; outside it
+        a rectangle touching i32::MAX yields no points at all, which is not MockDisplay's business)"""
+        x, y = point()
+        lim = 2 ** 29
+        return (max(-lim, min(lim, x)), max(-lim, min(lim, y)))
+
     for _ in range(nops):
         k = rng.random()
         if k < 0.35:
@@ -113,14 +120,14 @@ def history(rng, t, n, ao, ab, nops, probes=True, fresh=None):
             toks.append('di:' + ';'.join('%d:%d:%d' % (x, y, color(rng, t, n)) for x, y in ps))
             drawn.update(ps)
         elif k < 0.7:
-            x, y = point()
+            x, y = origin()
             w, h = rng.choice([0, 1, 1, 2, 3, 5, 9]), rng.choice([0, 1, 1, 2, 3, 4, 7])
             if rng.random() < 0.08:
                 x, y, w, h = rng.choice([(-1, -1, 66, 66), (0, 0, 64, 64), (0, 0, 65, 64), (0, 63, 64, 2), (60, 60, 5, 5), (-2, 3, 4, 2)])
             toks.append('fs:%d:%d:%d:%d:%d' % (x, y, w, h, color(rng, t, n)))
             drawn.update((xx, yy) for xx in range(x, x + w) for yy in range(y, y + h))
         elif k < 0.82:
-            x, y = point()
+            x, y = origin()
             w, h = rng.choice([0, 1, 2, 3, 5]), rng.choice([0, 1, 2, 3, 4])
             m = max(0, w * h + rng.choice([0, 0, 0, -1, -2, 1, 3, -w * h]))
             toks.append('fc:%d:%d:%d:%d:%s' % (x, y, w, h, ','.join(str(color(rng, t, n)) for _ in range(m))))
@@ -145,6 +152,8 @@ def history(rng, t, n, ao, ab, nops, probes=True, fresh=None):
             j = rng.random()
             if j < 0.4:
                 x, y = rng.choice(sorted(drawn)) if drawn and len(drawn) < 200 and rng.random() < 0.6 else outpt(rng) if rng.random() < 0.6 else inpt(rng)
+                if rng.random() < 0.35:   # the points whose unchecked index would be the same cell
+                    x, y = rng.choice([(x + 64, y - 1), (x - 64, y + 1), (x + 64, y), (x, y + 64), (x - 64, y), (x, y - 64)])
                 toks.append('gp:%d:%d' % (x, y))
             elif j < 0.7:
                 toks.append('aa')
@@ -187,6 +196,21 @@ def pattern(rng, t, valid_only=False, upper_only=False):
     return ['r' + r.replace(' ', '_') for r in rows]
 
 
+def one_cell_pairs(rng, suite):
+    """pairs of displays that differ in exactly one cell (every corner, border cells, random cells), both orders, and equal pairs"""
+    cells = [(0, 0), (63, 0), (0, 63), (63, 63), (1, 0), (0, 1), (62, 63), (63, 62)] + [inpt(rng) for _ in range(24)]
+    for i, (x, y) in enumerate(cells):
+        t, n = TYPES[i % len(TYPES)]
+        c1 = color(rng, t, n)
+        c2 = (c1 + 1 + rng.randrange(n - 1)) % n
+        base = rng.choice([[], ['ao:1', 'cl:%d' % c1], ['fs:%d:%d:3:3:%d' % (max(0, x - 1), max(0, y - 1), c1)], ['ab:1', 'fs:60:60:9:9:%d' % c1]])
+        extras = [['sp:%d:%d:%d' % (x, y, c2)], ['sp:%d:%d:n' % (x, y)] if base else ['sp:%d:%d:%d' % (x, y, c1)]]
+        for extra in extras:
+            yield J(suite, t, *base, '/', *base, *extra)
+            yield J(suite, t, *base, *extra, '/', *base)
+            yield J(suite, t, *base, *extra, '/', *base, *extra)
+
+
 def cases(tier, rng):
     n_hist = 2200 if tier == 'quick' else 30000
     for i in range(n_hist):
@@ -209,6 +233,7 @@ def cases(tier, rng):
         else:
             b = history(rng, t, n, 1, 1, rng.choice([0, 1, 2, 4]), probes=False)
         yield J('mock_eqdiff', t, *a, '/', *b)
+    yield from one_cell_pairs(rng, 'mock_eqdiff')
     n_pat = 600 if tier == 'quick' else 8000
     for i in range(n_pat):
         t, n = TYPES[i % len(TYPES)]
@@ -242,6 +267,7 @@ def search(tier, rng):
         else:
             b = history(rng, t, n, 1, 1, rng.choice([0, 1, 2, 4]), probes=False)
         yield J('p_mock_eq', t, *a, '/', *b)
+    yield from one_cell_pairs(rng, 'p_mock_eq')
     n_pat = 500 if tier == 'quick' else 6000
     for i in range(n_pat):
         t, n = TYPES[i % len(TYPES)]
